@@ -14,7 +14,7 @@ BFree(t) == << <<"words", t, 0>> >>
 \* rule files: file k has groups named 1..NGroups[k]; name n + 100 is n in another letter case
 NGroups == <<3, 2, 1>>
 Fold(x) == x % 100
-Filters == << <<"none", <<>>>>, <<"only", <<2>>>>, <<"only", <<103, 1>>>>, <<"only", <<1, 3>>>>, <<"without", <<102>>>>, <<"without", <<1, 3>>>>, <<"only", <<4>>>>, <<"without", <<4>>>> >>
+Filters == << <<"none", <<>>>>, <<"only", <<2>>>>, <<"only", <<103, 1>>>>, <<"only", <<1, 3>>>>, <<"without", <<102>>>>, <<"without", <<1, 3>>>>, <<"only", <<4>>>>, <<"without", <<4>>>>, <<"without", <<101>>>>, <<"without", <<1>>>> >>
 GroupsOf(k) == [i \in 1..NGroups[k] |-> i]
 Select(k, fi) == LET f == Filters[fi] IN
                  CASE f[1] = "none" -> GroupsOf(k)
@@ -44,7 +44,7 @@ FromOf(t) == LET c == Pick(t * 10 + 1, 40) IN
              IF c = 40 THEN N + 1 ELSE IF c >= 35 THEN Pick(t * 10 + 2, N) ELSE Pick(t * 10 + 2, t) - 1
 conf == [t \in 1..N |-> [from |-> FromOf(t), nent |-> Pick(t * 10 + 3, 2)]]
 \* filters: mostly ones that are valid for the chosen file
-ValidFilters == << <<1, 2, 3, 4, 5, 6>>, <<1, 2, 5>>, <<1>> >>
+ValidFilters == << <<1, 2, 3, 4, 5, 6, 9, 10>>, <<1, 2, 5, 9>>, <<1>> >>   \* 9, 10: a single-name `!` that removes the FIRST group (the survivors must keep the file's order)
 FiltOf(file, p) == IF Pick(p + 1000, 12) = 12 THEN Pick(p, Len(Filters)) ELSE ValidFilters[file][Pick(p, Len(ValidFilters[file]))]
 FileOf(t, e) == Pick(t * 10 + 3 + e, 3)
 ents == [t \in 1..N |-> [e \in 1..2 |-> [file |-> FileOf(t, e), filt |-> FiltOf(FileOf(t, e), t * 10 + 5 + e)]]]
